@@ -386,6 +386,8 @@ type SignCall struct {
 	Data    []byte
 	Flags   agent.SignatureFlags
 	OK      bool
+	Sig     *ssh.Signature // what the agent answered (nil on error)
+	ReqIdx  int            // index of the last request seen when the call was made
 }
 
 func (r *Recorder) Reset() {
@@ -424,7 +426,7 @@ func (r *Recorder) SignWithFlags(key ssh.PublicKey, data []byte, flags agent.Sig
 		sig, err = r.inner.SignWithFlags(key, data, flags)
 	}
 	r.mu.Lock()
-	r.Signs = append(r.Signs, SignCall{KeyBlob: key.Marshal(), Data: append([]byte{}, data...), Flags: flags, OK: err == nil})
+	r.Signs = append(r.Signs, SignCall{KeyBlob: key.Marshal(), Data: append([]byte{}, data...), Flags: flags, OK: err == nil, Sig: sig})
 	r.mu.Unlock()
 	return sig, err
 }
